@@ -3,6 +3,7 @@ import GramModel.Check
 import GramModel.Oracle
 import GramModel.Lemmas.StoreCtx
 import GramModel.Lemmas.Rebase
+import GramModel.Lemmas.CtxWrap
 
 /-!
 # C18 — checking under a context matches the closed program; contexts are restored
@@ -183,3 +184,427 @@ example :
     expectX 3 [some (.lit 5, 1)] .int .int .defMismatch = .ok () ∧
     inferX 4 [(.int, 1)] [some (.lit 5, 1)] (.bin .sum (.var 1 0) (.lit 1)) = .ok .int :=
   ⟨rfl, rfl, rfl, rfl, rfl, rfl⟩
+
+/-! # Whole contexts: checking under a context = checking the closed program
+
+`Lemmas/CtxWrap.lean`.  A context is a list of layers, outermost first: `Layer.param x im A` (pushes `(A, 0)` /
+`none`) or `Layer.group ds` (pushes what `pushGroupX` pushes); `closeCtx ls t` binds the layers around `t`
+(`λ` / `letg`), `closeTy ls B` around its type (`Π` / `letg`); `CtxOK ls c` says that every parameter domain is
+accepted as a type and every group's definitions are accepted, each under the layers outside it.
+`closeParams` / `closePi` / `pushParams` / `ParamsOK` are the same for parameter-only contexts
+`ps : List (Name × Bool × Tm)` — outermost parameter first. -/
+
+section WholeContext
+open CtxWrap
+
+/-- **The answer never depends on the fuel**: an acceptance and a rejection of the same term in the same
+context can only differ by the rejection being "out of fuel". -/
+def C18_verdict_fuel_independent_stmt : Prop :=
+  ∀ (f g : Nat) (Γ : TCtxX) (Δ : DCtxX) (t : Tm) (r₁ r₂ : Except XErr Tm),
+    inferX f Γ Δ t = r₁ → inferX g Γ Δ t = r₂ → r₁ ≠ .error .fuel → r₂ ≠ .error .fuel → r₁ = r₂
+theorem C18_verdict_fuel_independent : C18_verdict_fuel_independent_stmt := by
+  intro f g Γ Δ t r₁ r₂ h1 h2 n1 n2
+  exact inferX_det h1 h2 n1 n2
+
+/-- **Lambda wrap for the independent checker.**  `(x : A) => t` is accepted with type `(x : A) -> B` exactly
+when `A` is accepted as a type and `t` is accepted with type `B` under the context extended by `(A, 0)` / `none`
+(all three sub-checks at the fuel one below). -/
+def C18_lam_wrap_X_stmt : Prop :=
+  ∀ (f : Nat) (Γ : TCtxX) (Δ : DCtxX) (x : Name) (im : Bool) (A t B : Tm),
+    inferX (f+1) Γ Δ (.lam x im A t) = .ok (.pi x im A B) ↔
+    (∃ K, inferX f Γ Δ A = .ok K ∧ isTypeX f Δ K = .ok ()) ∧
+    inferX f ((A, 0) :: Γ) (none :: Δ) t = .ok B
+theorem C18_lam_wrap_X : C18_lam_wrap_X_stmt := by
+  intro f Γ Δ x im A t B
+  rw [lam_wrap_X]
+  constructor
+  · rintro ⟨hA, B', e, hB⟩; injection e with _ _ _ e; subst e; exact ⟨hA, hB⟩
+  · rintro ⟨hA, hB⟩; exact ⟨hA, B, rfl, hB⟩
+
+/-- … and a λ is never given any other type than that Π; a rejection of the λ is the rejection of the domain,
+of "the domain is a type", or of the body (`r.map` keeps an error and wraps a type). -/
+def C18_lam_wrap_X_result_stmt : Prop :=
+  ∀ (f : Nat) (Γ : TCtxX) (Δ : DCtxX) (x : Name) (im : Bool) (A t K : Tm),
+    inferX f Γ Δ A = .ok K → isTypeX f Δ K = .ok () →
+    inferX (f+1) Γ Δ (.lam x im A t) = (inferX f ((A, 0) :: Γ) (none :: Δ) t).map (.pi x im A)
+theorem C18_lam_wrap_X_result : C18_lam_wrap_X_result_stmt := by
+  intro f Γ Δ x im A t K h1 h2
+  exact lam_step_ok x im t h1 h2
+
+/-- **Whole-context wrap, acceptance.**  For an accepted context (any mix of parameters and definition groups)
+the open term is accepted under the context with type `B` iff the closed program is accepted under the base
+context with type `B` closed by the same layers ("for some fuel" on both sides: the answer does not depend
+on the fuel). -/
+def C18_ctx_wrap_stmt : Prop :=
+  ∀ (ls : List Layer) (c : TCtxX × DCtxX) (t B : Tm), CtxOK ls c →
+    ((∃ f, inferX f (pushCtxs ls c).1 (pushCtxs ls c).2 t = .ok B) ↔
+     (∃ f, inferX f c.1 c.2 (closeCtx ls t) = .ok (closeTy ls B)))
+theorem C18_ctx_wrap : C18_ctx_wrap_stmt := by
+  intro ls c t B h
+  exact ctx_accept ls c t B h
+
+/-- **Whole-context wrap, rejection.**  A genuine type error (not "out of fuel") of the open term under the
+context is the *same* error of the closed program, and conversely. -/
+def C18_ctx_reject_stmt : Prop :=
+  ∀ (ls : List Layer) (c : TCtxX × DCtxX) (t : Tm) (e : XErr), CtxOK ls c → e ≠ .fuel →
+    ((∃ f, inferX f (pushCtxs ls c).1 (pushCtxs ls c).2 t = .error e) ↔
+     (∃ f, inferX f c.1 c.2 (closeCtx ls t) = .error e))
+theorem C18_ctx_reject : C18_ctx_reject_stmt := by
+  intro ls c t e h he
+  exact ctx_reject ls c t h e he
+
+/-- **Same verdict.**  If the open term is genuinely rejected under the context, the closed program is not
+accepted at any fuel; if the closed program is genuinely rejected, the open term is not accepted at any fuel. -/
+def C18_ctx_verdict_stmt : Prop :=
+  ∀ (ls : List Layer) (c : TCtxX × DCtxX) (t : Tm), CtxOK ls c →
+    ((∃ f e, e ≠ .fuel ∧ inferX f (pushCtxs ls c).1 (pushCtxs ls c).2 t = .error e) →
+      ∀ g T, inferX g c.1 c.2 (closeCtx ls t) ≠ .ok T) ∧
+    ((∃ f e, e ≠ .fuel ∧ inferX f c.1 c.2 (closeCtx ls t) = .error e) →
+      ∀ g B, inferX g (pushCtxs ls c).1 (pushCtxs ls c).2 t ≠ .ok B)
+theorem C18_ctx_verdict : C18_ctx_verdict_stmt := by
+  intro ls c t h
+  exact ctx_verdict ls c t h
+
+/-- **Acceptance of a closed program, characterised** (no hypothesis on the context): the closed program is
+accepted with type `T` iff the context is accepted, the open term is accepted under it with some type `B`, and
+`T` is `B` closed by the same layers. -/
+def C18_ctx_accept_iff_stmt : Prop :=
+  ∀ (ls : List Layer) (c : TCtxX × DCtxX) (t T : Tm),
+    (∃ f, inferX f c.1 c.2 (closeCtx ls t) = .ok T) ↔
+    CtxOK ls c ∧ ∃ B, T = closeTy ls B ∧ ∃ f, inferX f (pushCtxs ls c).1 (pushCtxs ls c).2 t = .ok B
+theorem C18_ctx_accept_iff : C18_ctx_accept_iff_stmt := by
+  intro ls c t T
+  exact closed_ok_iff ls c t T
+
+/-! ## parameter contexts -/
+
+/-- the contexts a parameter list produces over the empty context: the domains innermost first, each with
+offset 0, and as many `none`s -/
+def C18_params_shape_stmt : Prop :=
+  ∀ (ps : Params) (c : TCtxX × DCtxX),
+    pushParams ps c = ((ps.reverse.map fun p => (p.2.2, 0)) ++ c.1, List.replicate ps.length none ++ c.2)
+theorem C18_params_shape : C18_params_shape_stmt := by
+  intro ps c
+  exact pushParams_eq ps c
+
+/-- **Parameter contexts.**  `Γ = [(Aₙ,0), …, (A₁,0)]`, `Δ = [none, …, none]` (over any base context `c`, in
+particular the empty one), every `Aᵢ` accepted as a type under its prefix: `t` is accepted under `(Γ, Δ)` with
+type `B` iff `(x₁ : A₁) => … => (xₙ : Aₙ) => t` is accepted under the base with type
+`(x₁ : A₁) -> … -> (xₙ : Aₙ) -> B`. -/
+def C18_params_wrap_stmt : Prop :=
+  ∀ (ps : Params) (c : TCtxX × DCtxX) (t B : Tm), ParamsOK ps c →
+    ((∃ f, inferX f (pushParams ps c).1 (pushParams ps c).2 t = .ok B) ↔
+     (∃ f, inferX f c.1 c.2 (closeParams ps t) = .ok (closePi ps B)))
+theorem C18_params_wrap : C18_params_wrap_stmt := by
+  intro ps c t B h
+  exact ctx_accept (paramLayers ps) c t B h
+
+/-- **Parameter contexts, rejection side**: the same genuine error on both sides; and a genuine rejection on
+one side excludes acceptance on the other at every fuel. -/
+def C18_params_reject_stmt : Prop :=
+  ∀ (ps : Params) (c : TCtxX × DCtxX) (t : Tm), ParamsOK ps c →
+    (∀ e, e ≠ .fuel →
+      ((∃ f, inferX f (pushParams ps c).1 (pushParams ps c).2 t = .error e) ↔
+       (∃ f, inferX f c.1 c.2 (closeParams ps t) = .error e))) ∧
+    ((∃ f e, e ≠ .fuel ∧ inferX f (pushParams ps c).1 (pushParams ps c).2 t = .error e) →
+      ∀ g T, inferX g c.1 c.2 (closeParams ps t) ≠ .ok T) ∧
+    ((∃ f e, e ≠ .fuel ∧ inferX f c.1 c.2 (closeParams ps t) = .error e) →
+      ∀ g B, inferX g (pushParams ps c).1 (pushParams ps c).2 t ≠ .ok B)
+theorem C18_params_reject : C18_params_reject_stmt := by
+  intro ps c t h
+  exact ⟨fun e he => ctx_reject (paramLayers ps) c t h e he, ctx_verdict (paramLayers ps) c t h⟩
+
+/-- the closed function is accepted only if every domain is accepted as a type in its prefix context, and only
+at an iterated function type -/
+def C18_params_accept_iff_stmt : Prop :=
+  ∀ (ps : Params) (c : TCtxX × DCtxX) (t T : Tm),
+    (∃ f, inferX f c.1 c.2 (closeParams ps t) = .ok T) ↔
+    ParamsOK ps c ∧ ∃ B, T = closePi ps B ∧ ∃ f, inferX f (pushParams ps c).1 (pushParams ps c).2 t = .ok B
+theorem C18_params_accept_iff : C18_params_accept_iff_stmt := by
+  intro ps c t T
+  exact closed_ok_iff (paramLayers ps) c t T
+
+/-! ## definition groups and mixed contexts -/
+
+/-- the entries a group of `n` definitions pushes: definition `i` (source order, 0-based) is at position
+`n - 1 - i` with offset `n - i` — annotation in the typing context, definition in the definitions context -/
+def C18_group_shape_stmt : Prop :=
+  ∀ (ds : Defs) (Γ : TCtxX) (Δ : DCtxX) (i : Nat) (x : Name) (a d : Tm), ds.toList[i]? = some (x, a, d) →
+    (pushGroupX ds 0 (Γ, Δ)).1[ds.len - 1 - i]? = some (a, ds.len - i) ∧
+    (pushGroupX ds 0 (Γ, Δ)).2[ds.len - 1 - i]? = some (some (d, ds.len - i))
+theorem C18_group_shape : C18_group_shape_stmt := by
+  intro ds Γ Δ i x a d h
+  exact pushGroupX_get ds Γ Δ i x a d h
+
+/-- **Group wrap, any number of definitions, fixed fuel** (generalises `C18_let_wrap`): `ds; b` is accepted with
+type `T` iff the definitions check under the pushed group, the body is accepted under the pushed group with some
+type `B`, and `T` is `ds; B`. -/
+def C18_group_wrap_stmt : Prop :=
+  ∀ (f : Nat) (Γ : TCtxX) (Δ : DCtxX) (ds : Defs) (b T : Tm),
+    inferX (f+1) Γ Δ (.letg ds b) = .ok T ↔
+    inferDefsX f (pushGroupX ds 0 (Γ, Δ)).1 (pushGroupX ds 0 (Γ, Δ)).2 ds = .ok () ∧
+    ∃ B, T = .letg ds B ∧ inferX f (pushGroupX ds 0 (Γ, Δ)).1 (pushGroupX ds 0 (Γ, Δ)).2 b = .ok B
+theorem C18_group_wrap : C18_group_wrap_stmt := by
+  intro f Γ Δ ds b T
+  exact group_wrap_X f Γ Δ ds b T
+
+/-- `inferDefsX` accepts a group (at some fuel) iff every definition is accepted: its annotation is accepted as
+a type and the definition is accepted with a type convertible with the annotation -/
+def C18_defs_accept_iff_stmt : Prop :=
+  ∀ (Γ : TCtxX) (Δ : DCtxX) (ds : Defs), DefsAcc Γ Δ ds ↔ ∃ f, inferDefsX f Γ Δ ds = .ok ()
+theorem C18_defs_accept_iff : C18_defs_accept_iff_stmt := by
+  intro Γ Δ ds
+  exact defsAcc_iff Γ Δ ds
+
+/-- **Mixed contexts**: parameters `ps`, then one definition group `ds` of any length on top of them.  With the
+domains and the definitions accepted, the body under `pushGroupX ds` over the parameter context gets the same
+answer as `(x₁ : A₁) => … => (ds; b)` under the base: same acceptance with the type closed by the group and the
+Πs, same genuine error. -/
+def C18_mixed_wrap_stmt : Prop :=
+  ∀ (ps : Params) (ds : Defs) (c : TCtxX × DCtxX) (b : Tm),
+    ParamsOK ps c →
+    DefsAcc (pushGroupX ds 0 (pushParams ps c)).1 (pushGroupX ds 0 (pushParams ps c)).2 ds →
+    (∀ B, (∃ f, inferX f (pushGroupX ds 0 (pushParams ps c)).1 (pushGroupX ds 0 (pushParams ps c)).2 b = .ok B) ↔
+          (∃ f, inferX f c.1 c.2 (closeParams ps (.letg ds b)) = .ok (closePi ps (.letg ds B)))) ∧
+    (∀ e, e ≠ .fuel →
+      ((∃ f, inferX f (pushGroupX ds 0 (pushParams ps c)).1 (pushGroupX ds 0 (pushParams ps c)).2 b = .error e) ↔
+       (∃ f, inferX f c.1 c.2 (closeParams ps (.letg ds b)) = .error e)))
+theorem C18_mixed_wrap : C18_mixed_wrap_stmt := by
+  intro ps ds c b hps hds
+  have hg : CtxOK [Layer.group ds] (pushParams ps c) := ⟨hds, trivial⟩
+  constructor
+  · intro B
+    exact (ctx_accept [Layer.group ds] (pushParams ps c) b B hg).trans
+      (ctx_accept (paramLayers ps) c (.letg ds b) (.letg ds B) hps)
+  · intro e he
+    exact (ctx_reject [Layer.group ds] (pushParams ps c) b hg e he).trans
+      (ctx_reject (paramLayers ps) c (.letg ds b) hps e he)
+
+/-! ## conversion and normalisation under parameters -/
+
+/-- a parameter is inert under normalisation, and a λ / Π is already a weak head normal form -/
+def C18_whnf_param_stmt : Prop :=
+  ∀ (f : Nat) (Δ : DCtxX) (x : Name) (im : Bool) (A t : Tm),
+    whnfX (f+1) (none :: Δ) (.var x 0) = some (.var x 0) ∧
+    whnfX (f+1) Δ (.lam x im A t) = some (.lam x im A t) ∧
+    whnfX (f+1) Δ (.pi x im A t) = some (.pi x im A t)
+theorem C18_whnf_param : C18_whnf_param_stmt := by
+  intro f Δ x im A t
+  exact ⟨whnfX_param f Δ x, whnfX_lam f Δ x im A t, whnfX_pi f Δ x im A t⟩
+
+/-- **Comparing two functions is comparing their bodies under one more parameter** (names and domain annotations
+are irrelevant; one unit of fuel for the binder). -/
+def C18_conv_lam_stmt : Prop :=
+  ∀ (f : Nat) (Δ : DCtxX) (x y : Name) (im jm : Bool) (A A' t u : Tm),
+    convX (f+2) Δ (.lam x im A t) (.lam y jm A' u) =
+      if im == jm then convX (f+1) (none :: Δ) t u else some false
+theorem C18_conv_lam : C18_conv_lam_stmt := by
+  intro f Δ x y im jm A A' t u
+  exact convX_lam f Δ x y im jm A A' t u
+
+/-- **Comparing two function types**: the domains in the current context, then the codomains under one more
+parameter. -/
+def C18_conv_pi_stmt : Prop :=
+  ∀ (f : Nat) (Δ : DCtxX) (x y : Name) (im jm : Bool) (A A' t u : Tm),
+    convX (f+2) Δ (.pi x im A t) (.pi y jm A' u) =
+      if im == jm then
+        match convX (f+1) Δ A A' with
+        | some true => convX (f+1) (none :: Δ) t u
+        | r => r
+      else some false
+theorem C18_conv_pi : C18_conv_pi_stmt := by
+  intro f Δ x y im jm A A' t u
+  exact convX_pi f Δ x y im jm A A' t u
+
+/-- **Whole parameter contexts**: the conversion check under `n` parameters is the conversion check of the
+closed functions, and of the closed function types (one unit of fuel per binder); convertibility under the
+parameters gives convertibility of the closed terms. -/
+def C18_conv_params_stmt : Prop :=
+  ∀ (ps : Params) (f : Nat) (Δ : DCtxX) (t u : Tm),
+    convX (f + 1 + ps.length) Δ (closeParams ps t) (closeParams ps u) =
+      convX (f + 1) (List.replicate ps.length none ++ Δ) t u ∧
+    convX (f + 1 + ps.length) Δ (closePi ps t) (closePi ps u) =
+      convX (f + 1) (List.replicate ps.length none ++ Δ) t u ∧
+    (Conv (List.replicate ps.length none ++ Δ) t u →
+      Conv Δ (closeParams ps t) (closeParams ps u) ∧ Conv Δ (closePi ps t) (closePi ps u))
+theorem C18_conv_params : C18_conv_params_stmt := by
+  intro ps f Δ t u
+  have e : (pushParams ps ([], Δ)).2 = List.replicate ps.length none ++ Δ := by rw [pushParams_eq]
+  rw [← e]
+  exact ⟨convX_closeParams ps f Δ t u, convX_closePi ps f Δ t u,
+    fun h => ⟨Conv_closeParams ps Δ t u h, Conv_closePi ps Δ t u h⟩⟩
+
+/-- **gram's own `unify`**: once both sides are weak-head normalised (a λ / Π is its own normal form), two λs are
+compared by pushing `None`, unifying the bodies, and popping; two Πs by unifying the domains in the current
+context first. -/
+def C18_unify_binder_stmt : Prop :=
+  ∀ (f : Nat) (x y : Name) (im jm : Bool) (A A' t u : Tm),
+    whnfS (f+1) (.lam x im A t) = pure (.lam x im A t) ∧
+    whnfS (f+1) (.pi x im A t) = pure (.pi x im A t) ∧
+    UnifyAgree.unifyHead f (.lam x im A t) (.lam y jm A' u) =
+      (if im == jm then do
+        pushD none
+        let r ← unifyS f t u
+        popD
+        pure r
+      else pure false) ∧
+    UnifyAgree.unifyHead f (.pi x im A t) (.pi y jm A' u) =
+      (if im == jm then do
+        if ← unifyS f A A' then do
+          pushD none
+          let r ← unifyS f t u
+          popD
+          pure r
+        else pure false
+      else pure false)
+theorem C18_unify_binder : C18_unify_binder_stmt := by
+  intro f x y im jm A A' t u
+  exact ⟨whnfS_lam f x im A t, whnfS_pi f x im A t, unifyHead_lam f x y im jm A A' t u,
+    unifyHead_pi f x y im jm A A' t u⟩
+
+/-! ## definitions: δ-unfolding from the context agrees with unfolding of the closed group -/
+
+/-- **Transparent group congruence.**  Terms convertible under the context of a group — where the group's
+variables unfold to their definitions (δ) — give convertible closed groups — where the group is unfolded by
+substitution.  (`Conv.letg` has this only for opaque group variables.)  Well-formed offsets and hole-free
+definitions in the base context; any number of (possibly recursive) definitions. -/
+def C18_conv_group_stmt : Prop :=
+  ∀ (Γ : TCtxX) (Δ : DCtxX) (ds : Defs) (b b' : Tm), CCPar.DWF Δ → WhnfLemmas.DHF Δ →
+    ds.holeFree = true → b.holeFree = true → b'.holeFree = true →
+    Conv (pushGroupX ds 0 (Γ, Δ)).2 b b' → Conv Δ (.letg ds b) (.letg ds b')
+theorem C18_conv_group : C18_conv_group_stmt := by
+  intro Γ Δ ds b b' hW hD hds hb hb' h
+  exact Conv_group hW hD hds hb hb' h
+
+/-- **Normalisation under a group vs normalisation of the closed group.**  If the open term normalises to `w`
+under the group's context and the closed group normalises to `w'`, then `w'` is convertible with `ds; w` (and
+`ds; t` with `ds; w`). -/
+def C18_whnf_group_stmt : Prop :=
+  ∀ (Γ : TCtxX) (Δ : DCtxX) (ds : Defs) (t w w' : Tm) (f g : Nat), CCPar.DWF Δ → WhnfLemmas.DHF Δ →
+    ds.holeFree = true → t.holeFree = true → WhnfLemmas.DHF (pushGroupX ds 0 (Γ, Δ)).2 →
+    whnfX f (pushGroupX ds 0 (Γ, Δ)).2 t = some w → whnfX g Δ (.letg ds t) = some w' →
+    Conv Δ (.letg ds t) (.letg ds w) ∧ Conv Δ w' (.letg ds w)
+theorem C18_whnf_group : C18_whnf_group_stmt := by
+  intro Γ Δ ds t w w' f g hW hD hds ht hD' h h'
+  exact whnfX_group hW hD hds ht hD' h h'
+
+/-- **The conversion check under a group vs on the closed groups.**  What the check accepts under the group's
+context is convertible when closed by the group, and the check on the closed groups never answers "different",
+at any fuel. -/
+def C18_convX_group_stmt : Prop :=
+  ∀ (Γ : TCtxX) (Δ : DCtxX) (ds : Defs) (t u : Tm) (f : Nat), CCPar.DWF Δ → WhnfLemmas.DHF Δ →
+    ds.holeFree = true → t.holeFree = true → u.holeFree = true → WhnfLemmas.DHF (pushGroupX ds 0 (Γ, Δ)).2 →
+    convX f (pushGroupX ds 0 (Γ, Δ)).2 t u = some true →
+    Conv Δ (.letg ds t) (.letg ds u) ∧ ∀ g, convX g Δ (.letg ds t) (.letg ds u) ≠ some false
+theorem C18_convX_group : C18_convX_group_stmt := by
+  intro Γ Δ ds t u f hW hD hds ht hu hD' h
+  exact convX_group hW hD hds ht hu hD' h
+
+/-! ## Non-vacuity of the whole-context theorems -/
+
+-- lambda wrap: `(x : int) => x + 1 : (x : int) -> int`, with its premises
+example :
+    inferX 4 [] [] (.lam 1 false .int (.bin .sum (.var 1 0) (.lit 1))) = .ok (.pi 1 false .int .int) ∧
+    inferX 3 [] [] .int = .ok .type ∧ isTypeX 3 [] .type = .ok () ∧
+    inferX 3 [(.int, 0)] [none] (.bin .sum (.var 1 0) (.lit 1)) = .ok .int := ⟨rfl, rfl, rfl, rfl⟩
+
+/-- the context `a : type, x : a` (outermost first) -/
+def c18ExParams : Params := [(10, false, .type), (11, false, .var 10 0)]
+
+theorem c18ExParamsOk : ParamsOK c18ExParams ([], []) := by
+  simp only [c18ExParams, ParamsOK_cons, ParamsOK_nil]
+  exact ⟨⟨1, .type, rfl, rfl⟩, ⟨2, .type, rfl, rfl⟩, trivial⟩
+
+-- its contexts, the closed wrapper of `x`, and the closed type
+example : pushParams c18ExParams ([], []) = ([(.var 10 0, 0), (.type, 0)], [none, none]) := rfl
+example : closeParams c18ExParams (.var 11 0) = .lam 10 false .type (.lam 11 false (.var 10 0) (.var 11 0)) := rfl
+example : closePi c18ExParams (.var 10 1) = .pi 10 false .type (.pi 11 false (.var 10 0) (.var 10 1)) := rfl
+
+-- acceptance: `x : a` under the context, `(a : type) => (x : a) => x : (a : type) -> (x : a) -> a` closed;
+-- both sides of `C18_params_wrap` hold
+example :
+    inferX 1 (pushParams c18ExParams ([], [])).1 (pushParams c18ExParams ([], [])).2 (.var 11 0) = .ok (.var 10 1) ∧
+    inferX 3 [] [] (closeParams c18ExParams (.var 11 0)) = .ok (closePi c18ExParams (.var 10 1)) := ⟨rfl, rfl⟩
+example : ∃ f, inferX f [] [] (closeParams c18ExParams (.var 11 0)) = .ok (closePi c18ExParams (.var 10 1)) :=
+  (C18_params_wrap c18ExParams ([], []) (.var 11 0) (.var 10 1) c18ExParamsOk).1 ⟨1, rfl⟩
+
+-- rejection: `x + 1` under `a : type, x : a` is "not an integer", and so is the closed wrapper; hence the closed
+-- wrapper is not accepted at any fuel
+example :
+    inferX 3 (pushParams c18ExParams ([], [])).1 (pushParams c18ExParams ([], [])).2 (.bin .sum (.var 11 0) (.lit 1))
+      = .error .notInt ∧
+    inferX 5 [] [] (closeParams c18ExParams (.bin .sum (.var 11 0) (.lit 1))) = .error .notInt := ⟨rfl, rfl⟩
+example : ∀ g T, inferX g [] [] (closeParams c18ExParams (.bin .sum (.var 11 0) (.lit 1))) ≠ .ok T :=
+  (C18_params_reject c18ExParams ([], []) (.bin .sum (.var 11 0) (.lit 1)) c18ExParamsOk).2.1
+    ⟨3, .notInt, by decide, rfl⟩
+
+-- a domain that is not a type: `(x : 5) => x` is not accepted, and `ParamsOK` fails accordingly
+example : inferX 4 [] [] (closeParams [(1, false, .lit 5)] (.var 1 0)) = .error .notType := rfl
+
+/-- the group `n : int = 5; m : int = n + 1` -/
+def c18ExGroup : Defs := .cons 1 .int (.lit 5) (.cons 2 .int (.bin .sum (.var 1 1) (.lit 1)) .nil)
+
+-- the entries it pushes (`n` at position 1 with offset 2, `m` at position 0 with offset 1)
+example : pushGroupX c18ExGroup 0 ([], []) =
+    ([(.int, 1), (.int, 2)], [some (.bin .sum (.var 1 1) (.lit 1), 1), some (.lit 5, 2)]) := rfl
+
+-- group wrap on `n : int = 5; m : int = n + 1; m * n`: the three components of `C18_group_wrap`
+example :
+    inferX 5 [] [] (.letg c18ExGroup (.bin .prod (.var 2 0) (.var 1 1))) = .ok (.letg c18ExGroup .int) ∧
+    inferDefsX 4 (pushGroupX c18ExGroup 0 ([], [])).1 (pushGroupX c18ExGroup 0 ([], [])).2 c18ExGroup = .ok () ∧
+    inferX 4 (pushGroupX c18ExGroup 0 ([], [])).1 (pushGroupX c18ExGroup 0 ([], [])).2
+      (.bin .prod (.var 2 0) (.var 1 1)) = .ok .int := ⟨rfl, rfl, rfl⟩
+
+-- a rejected body under the group (`if m then 1 else 2`: `m` is not a boolean) is the same rejection closed
+example :
+    inferX 4 (pushGroupX c18ExGroup 0 ([], [])).1 (pushGroupX c18ExGroup 0 ([], [])).2
+      (.ite (.var 2 0) (.lit 1) (.lit 2)) = .error .notBool ∧
+    inferX 5 [] [] (.letg c18ExGroup (.ite (.var 2 0) (.lit 1) (.lit 2))) = .error .notBool := ⟨rfl, rfl⟩
+
+-- mixed context `k : int` then the group `n : int = k + 1`, body `n * k`: hypotheses and both sides of
+-- `C18_mixed_wrap`
+example :
+    let ps : Params := [(20, false, .int)]
+    let ds : Defs := .cons 1 .int (.bin .sum (.var 20 1) (.lit 1)) .nil
+    let b : Tm := .bin .prod (.var 1 0) (.var 20 1)
+    ParamsOK ps ([], []) ∧
+    DefsAcc (pushGroupX ds 0 (pushParams ps ([], []))).1 (pushGroupX ds 0 (pushParams ps ([], []))).2 ds ∧
+    pushGroupX ds 0 (pushParams ps ([], [])) =
+      ([(.int, 1), (.int, 0)], [some (.bin .sum (.var 20 1) (.lit 1), 1), none]) ∧
+    inferX 3 (pushGroupX ds 0 (pushParams ps ([], []))).1 (pushGroupX ds 0 (pushParams ps ([], []))).2 b = .ok .int ∧
+    inferX 6 [] [] (closeParams ps (.letg ds b)) = .ok (closePi ps (.letg ds .int)) := by
+  refine ⟨?_, ?_, rfl, rfl, rfl⟩
+  · simp only [ParamsOK_cons, ParamsOK_nil]; exact ⟨⟨1, .type, rfl, rfl⟩, trivial⟩
+  · exact (C18_defs_accept_iff _ _ _).2 ⟨4, rfl⟩
+
+-- conversion under parameters: `(x : int) => x` vs `(y : bool) => y` (domains are not compared for functions),
+-- `(x : int) -> int` vs `(y : bool) -> int` (they are for function types)
+example :
+    convX 3 [] (.lam 1 false .int (.var 1 0)) (.lam 2 false .bool (.var 2 0)) = some true ∧
+    convX 2 [none] (.var 1 0) (.var 2 0) = some true ∧
+    convX 3 [] (.pi 1 false .int .int) (.pi 2 false .bool .int) = some false := ⟨rfl, rfl, rfl⟩
+
+-- under `a : type, x : a`: `x` and `((z : type) => z) x`… compared open, and as closed functions
+example :
+    convX 3 [none, none] (.var 11 0) (.app (.lam 5 false .type (.var 5 0)) (.var 11 0)) = some true ∧
+    convX 5 [] (closeParams c18ExParams (.var 11 0))
+      (closeParams c18ExParams (.app (.lam 5 false .type (.var 5 0)) (.var 11 0))) = some true := ⟨rfl, rfl⟩
+
+-- definitions: under `n : int = 5`, `n + 1` is convertible with `6` (δ from the context); closed, `n : int = 5; n + 1`
+-- is convertible with `n : int = 5; 6`, and the closed term normalises to `6`
+example :
+    let ds : Defs := .cons 1 .int (.lit 5) .nil
+    pushGroupX ds 0 ([], []) = ([(.int, 1)], [some (.lit 5, 1)]) ∧
+    convX 4 [some (.lit 5, 1)] (.bin .sum (.var 1 0) (.lit 1)) (.lit 6) = some true ∧
+    whnfX 4 [some (.lit 5, 1)] (.bin .sum (.var 1 0) (.lit 1)) = some (.lit 6) ∧
+    whnfX 5 [] (.letg ds (.bin .sum (.var 1 0) (.lit 1))) = some (.lit 6) ∧
+    convX 6 [] (.letg ds (.bin .sum (.var 1 0) (.lit 1))) (.letg ds (.lit 6)) = some true :=
+  ⟨rfl, rfl, rfl, rfl, rfl⟩
+example : Conv [] (.letg (.cons 1 .int (.lit 5) .nil) (.bin .sum (.var 1 0) (.lit 1)))
+    (.letg (.cons 1 .int (.lit 5) .nil) (.lit 6)) :=
+  (C18_convX_group [] [] (.cons 1 .int (.lit 5) .nil) (.bin .sum (.var 1 0) (.lit 1)) (.lit 6) 4
+    Canonical.DWF_nil TypingSound.DHF_nil rfl rfl rfl
+    (by intro e he d o hd; simp [pushGroupX, pushGroupX.go, Defs.len] at he; subst he; cases hd; rfl)
+    rfl).1
+
+end WholeContext
